@@ -190,10 +190,7 @@ def show_ws(ws):
 
 # ----------------------------------------------------------------------------- correspondence
 def correspondence(ctx):
-    ctx.partial = [
-        {"theorem": "QM.C12.wre_gradient_hasDerivAt_partial",
-         "missing": "stated for the unclipped defining formula Σ q log(q/p(t)); equality of relative_entropy with it near the point "
-                    "(thresholds inactive, numpy log = Real.log) and the Hessian-as-second-derivative are checked by correspondence/oracle only"}]
+    ctx.partial = []
     ctx.notes.append("hessian of the fast losses raises NotImplementedError by design; fast = generic is proved for value and gradient")
     drv = Driver("C12")
     pend = []
